@@ -114,8 +114,13 @@ func checkMsg(c msgCase) error {
 	}
 	// (2) lossless
 	var u dns.Msg
-	if err := u.Unpack(w); err != nil {
+	in := append([]byte(nil), w...)
+	if err := u.Unpack(in); err != nil {
 		return pbt.Errf("lossless: Unpack of the canonical image failed: %v (%s)", err, hx(w))
+	}
+	// the caller's buffer is the caller's again (receive loops read the next message into it)
+	for i := range in {
+		in[i] = 0x5C
 	}
 	m2, err := wm.MsgFromLib(&u, true)
 	if err != nil {
@@ -172,6 +177,52 @@ func genMsg(t *rapid.T) msgCase {
 	m := gen.Msg(t, mo)
 	if rapid.IntRange(0, 40).Draw(t, "bigrcode") == 0 {
 		m.Rcode = rapid.IntRange(16, 4095).Draw(t, "rc") // unrepresentable unless an OPT is present
+	}
+	return msgCase{M: m}
+}
+
+// genCounts draws a message whose sections hold very many very small records: the section counts
+// are 16-bit fields and every value up to 65535 is legal (a TCP message of 65535 octets holds 4300
+// root-owned A records, and Pack/Unpack themselves have no size limit).
+var countBoundaries = []int{255, 256, 257, 1023, 1024, 1025, 4095, 4096, 4097, 8191, 8192, 8193, 16383, 16384, 16385, 32767, 32768, 32769, 65534, 65535}
+
+func genCounts(t *rapid.T) msgCase {
+	o := &gen.Opts{Plain: true, MaxBlob: 4}
+	var pat []wm.Rec
+	for i, n := 0, rapid.IntRange(1, 3).Draw(t, "npat"); i < n; i++ {
+		r := gen.RecOfType(t, rapid.SampledFrom([]uint16{wm.TA, wm.TAAAA, wm.TTXT, wm.TNS, wm.TNULL}).Draw(t, "ptype"), o)
+		if rapid.Bool().Draw(t, "rootowned") {
+			r.Name = wm.Name{}
+		} else {
+			r.Name = gen.Name(t, gen.NameOpts{Plain: true, MaxLabs: 2, MaxLabel: 3})
+		}
+		pat = append(pat, r)
+	}
+	count := func(label string) int {
+		switch rapid.IntRange(0, 5).Draw(t, label+"k") {
+		case 0, 1, 2:
+			return rapid.IntRange(0, 3).Draw(t, label)
+		case 3:
+			return rapid.IntRange(0, 70000).Draw(t, label) // above 65535: unrepresentable, must be refused
+		default:
+			return rapid.SampledFrom(countBoundaries).Draw(t, label)
+		}
+	}
+	fill := func(n int) []wm.Rec {
+		out := make([]wm.Rec, n)
+		for i := range out {
+			out[i] = pat[i%len(pat)]
+		}
+		return out
+	}
+	m := wm.Msg{ID: uint16(gen.UintB(t, 16)), Flags: wm.FlagQR}
+	m.Q = []wm.Question{{Name: gen.Name(t, gen.NameOpts{Plain: true, MaxLabs: 2}), Type: 255, Class: 1}}
+	m.An, m.Ns, m.Ex = fill(count("an")), fill(count("ns")), fill(count("ex"))
+	if rapid.Bool().Draw(t, "withopt") {
+		m.Ex = append(m.Ex, gen.OptRec(t, &gen.Opts{Plain: true}))
+		if rapid.Bool().Draw(t, "extrcode") {
+			m.Rcode = rapid.IntRange(16, 4095).Draw(t, "rc")
+		}
 	}
 	return msgCase{M: m}
 }
@@ -544,6 +595,7 @@ func init() {
 	})
 
 	pbt.Register(pbt.Sub[msgCase]{Name: "message", Weight: 10, Gen: genMsg, Check: checkMsg})
+	pbt.Register(pbt.Sub[msgCase]{Name: "section-counts", Weight: 0.02, Gen: genCounts, Check: checkMsg})
 	pbt.Register(pbt.Sub[rrCase]{Name: "record", Weight: 30, Gen: genRR, Check: checkRR})
 	pbt.Register(pbt.Sub[reuseCase]{Name: "msg-value-reused", Weight: 4, Gen: genReuse, Check: checkReuse})
 	pbt.RegisterEnum(pbt.Enum[rrCase]{Name: "record-boundary-sweep", Each: eachType, Check: checkRR})
